@@ -163,7 +163,8 @@ class Checker:
         model = self.drv.call("c15.flatten", tree=ex)["lines"]
         r = self.drv.call("c15.spec", tree=ex)
         spec = r["lines"]
-        self.last_wf = (r["wf_unquote"], r["wf_kinds"], r["wf_posonly"], r["wf_alias"], r["wf_stages4"])
+        self.last_wf = (r["wf_unquote"], r["wf_kinds"], r["wf_posonly"], r["wf_alias"], r["wf_stages4"], r["wf_stages6"],
+                        r["stage6_eq_tweak"])
         return tree, impl, model, spec
 
     def fails(self, src):
@@ -200,6 +201,11 @@ class Checker:
         ctx.dist("hypothesis wfPosonly " + ("holds" if self.last_wf[2] else "FAILS") + " on the real tree")
         ctx.dist("hypothesis wfAlias " + ("holds" if self.last_wf[3] else "FAILS") + " on the real tree")
         ctx.dist("hypothesis wfStages4 (first four passes) " + ("holds" if self.last_wf[4] else "FAILS") + " on the real tree")
+        ctx.dist("hypothesis wfStages6 (Tree.WF of C15_tweaks_full) " + ("holds" if self.last_wf[5] else "FAILS") + " on the real tree")
+        ctx.dist("stage6 = tweak (staged tweaks vs one-shot specification) " + ("holds" if self.last_wf[6] else "FAILS") + " on the real tree")
+        if self.last_wf[5] and not self.last_wf[6] and len(ctx.notes) < 5:
+            ctx.notes.append("stage6 differs from tweak on a well-formed tree: " + src[:200])
+            ctx.broken.append("corr:stage6-vs-tweak")
         if impl == spec and not all(self.last_wf):
             ctx.dist("hypothesis fails but implementation = specification")
         if impl == spec and impl == model:
@@ -474,17 +480,17 @@ def run(ctx):
         "C15_hash (same `_hash` ⇔ same context-free repr within one flattening)",
         "C15_stateless / C15_sequence (result independent of the factory state; any sequence of flattenings)",
         "C15_flatten_eq (flatten_ast = post-processing of the pure dump)",
-        "C15_tweak_kinds_partial, C15_tweak_alias_partial, C15_tweak_posonly_partial, C15_tweak_backport_partial, "
-        "C15_tweak_first_three_partial, C15_tweak_first_four_partial, C15_tweak_unquote_partial (five of the six passes "
-        "are tree-level tweaks, under local clauses; the first four composed)",
+        "C15_tweak_{kinds,alias,posonly,backport,neg,unquote}_partial (each of the six passes is a tree-level tweak, under "
+        "local clauses), C15_tweaks_full (the six composed: postProcess (dump t) = dump (stage6 t) under wfStages6), "
+        "C15_flatten_tweaked (the same for what flatten_ast returns)",
         "C15_async_counterexample, C15_bytes_counterexample, C15_kind_in_string_counterexample (witnesses of the recorded findings)",
     ]
     ctx.cov["exercised_only"] = [
         "that the exported repr of an expression is equal for two expressions iff they are the same expression up to "
         "load/store context (checked by c15.spec: hashes recomputed from a structural canonical form)",
         "ast.parse itself (tree and line numbers are inputs of the model)",
-        "C15_tweaks_full: that simplify_negative_literals is a tree-level tweak, the composition of the six passes, and "
-        "the equality of the staged tweaks with the one-shot `tweak` (c15.spec = dump of `tweak`)",
+        "that the staged tweaks `stage6` equal the one-shot specification `tweak` (kinds by real kind): compared by the "
+        "driver on every real tree (stage6_eq_tweak), and c15.spec = dump of `tweak`",
     ]
     ctx.cov["trusted_base"] = core.BASE_TRUST + [
         "harness/flat_export.py: exporter of the real ast tree (types, fields in iter_fields order, lineno, repr of scalars, "
